@@ -117,3 +117,9 @@ void vf_harness(void) { bom_probe(); VF_CANARY(); }
     functions=['Xdl::read (BOM probe)'], trusted=['TextFile::read = fread, seek(0)'],
 )
 UNITS += [bom_probe]
+
+# replay: per-value lemmas and buffer units have no direct native input; the driver's battery (every byte in values/keys, key lengths 0..40, numeric boundaries,
+# prefixes, 2-chunk cuts, tiny files) runs on the real encoder/decoder instead
+for _u in UNITS:
+    if not _u.replay:
+        _u.replay = replay.battery('C05/driver.cpp', ['battery'])
